@@ -247,9 +247,9 @@ def main(tier, only=None):
     # ---- S2C: option combinations from the spec x models
     n = 176 if tier == "quick" else 3000
     optrecs = options_from_tlc(run, n, sd)
-    models = [(e["family"], e["net"], False) for e in corpus.all_singles(sd)]
+    models = [(e["family"], e["net"], False) for e in corpus.all_singles(sd, tier=tier)]
     hints = {}
-    for e in corpus.draw(int(n * 0.6) - len(models), sd):
+    for e in corpus.draw(max(int(n * 0.6) - len(models), 40), sd):      # keep family draws when all_singles is wide
         models.append((e["family"], e["net"], False))
         if e.get("hint"):
             hints[id(e["net"])] = e["hint"]
